@@ -44,6 +44,7 @@ SPEC = {
             "persist_terminal_history_reads": 2800, "wallet_driven_truncations": 250,
             "retained_history_reads": 5000, "store_level_cancels": 12, "traces_started_with_retained_history": 200,
             "wallet_truncations_with_an_earlier_complete_migration": 100, "wallet_truncations_refused_with_history": 50,
+            "advance_calls_with_caller_ahead_of_store": 1500, "failure_reports_discharged_with_caller_ahead_of_store": 25, "failure_reports_kept": 100,
             "update_transaction_checks": 400, "guard_probes_over_live_migration": 1700,
             "guard_probes_over_terminal_migration": 670, "guard_probe_status_in_progress": 1300,
             "second_pending_row_refused_by_database": 77, "failure_reports_adjudicated": 290,
@@ -69,6 +70,7 @@ SPEC = {
             "persist_terminal_history_reads": 220000, "wallet_driven_truncations": 21000,
             "retained_history_reads": 200000, "store_level_cancels": 500, "traces_started_with_retained_history": 10000,
             "wallet_truncations_with_an_earlier_complete_migration": 5000, "wallet_truncations_refused_with_history": 2000,
+            "advance_calls_with_caller_ahead_of_store": 100000, "failure_reports_discharged_with_caller_ahead_of_store": 1500, "failure_reports_kept": 6000,
             "update_transaction_checks": 39000, "guard_probes_over_live_migration": 130000,
             "guard_probes_over_terminal_migration": 54000, "guard_probe_status_in_progress": 100000,
             "second_pending_row_refused_by_database": 6200, "failure_reports_adjudicated": 22000,
